@@ -1,0 +1,14 @@
+//go:build verif
+
+package pipeline
+
+// Verification-only export for property C10 (build tag `verif`).
+
+// VerifEventStreamID returns the id of the stream the event was put into (spread mode:
+// stale SeqID % procCount), or ^0 when the event is in no stream.
+func VerifEventStreamID(e *Event) uint64 {
+	if e.stream == nil {
+		return ^uint64(0)
+	}
+	return uint64(e.stream.streamID)
+}
